@@ -78,7 +78,14 @@ def oracle_retry(line, go):
     return None
 
 
+def oracle_handover(line, go):
+    if go != "clean":
+        return "a request that was never given to a connection was answered with another request's failure: " + go
+    return None
+
+
 SUITES = {
+    "handover": {"n_quick": 3, "n_thorough": 3, "nontrivial": lambda line, go: True},
     "retry": {
         "n_quick": 120, "n_thorough": 3000,
         "nontrivial": retry_nontrivial,
@@ -90,8 +97,8 @@ SUITES = {
 }
 
 # properties (configured elsewhere) that also run this suite and count Props/Pool.v among their theorems
-ALSO = {"pool": ["C11", "C12", "C18"], "retry": ["C11"]}
-ALSO_ORACLES = {"pool": oracle_pool, "retry": oracle_retry}
+ALSO = {"pool": ["C11", "C12", "C18"], "retry": ["C11"], "handover": ["C12", "C19"]}
+ALSO_ORACLES = {"pool": oracle_pool, "retry": oracle_retry, "handover": oracle_handover}
 ALSO_PROPS = {"pool": "Pool"}
 ALSO_ASSUME = {"retry": "RoundTrip's loop (client.go) is the Gallina function round_trip over attempt outcomes (Proofs/CliResRetry.v); kept honest by the `retry` suite: the real Client.RoundTrip against scripted connections (GOAWAY before processing, MAX_CONCURRENT_STREAMS=0, RST_STREAM, 200, dial and handshake failures); replacement dials of dropped connections are refused by the harness so that the k-th dial is the k-th attempt's",
                "pool": "client.go's pool (pickConn, createConn, onConnectionDropped, Client.Close) hand-translated to Impl/ClientPool.v; "
